@@ -653,6 +653,10 @@ pub trait Backend: Send + Sync {
     fn serde_roundtrip(&self, a: Artifact, s: &str) -> Out<(String, String)>;
     /// parse a JSON document (string literal) into the artifact type via serde
     fn serde_parse(&self, a: Artifact, json: &str) -> Out<String>;
+    /// what the artifact serialises as in a format that is not human readable: (is a string, bytes)
+    fn serde_probe_ser(&self, a: Artifact, s: &str) -> Out<(bool, Vec<u8>)>;
+    /// deserialise the artifact type from such a format offering a string or a byte string
+    fn serde_probe_de(&self, a: Artifact, is_str: bool, bytes: &[u8]) -> Out<String>;
 }
 
 // ------------------------------------------------------------------------------------------
@@ -1398,6 +1402,46 @@ impl<V: Full> Backend for B<V> {
                 Ok(serde_json::Value::String(t)) if t == s => {}
                 other => return Err(pe("to_value", format!("{other:?}"))),
             }
+            // a serializer / deserializer that is not human readable (a binary format): still the text
+            // form, and byte strings are not an alternative spelling of it
+            match v.serialize(crate::payloads::ProbeSerializer) {
+                Ok(crate::payloads::Probed::Str(t)) if t == s => {}
+                other => return Err(pe("binary serializer", format!("{other:?}"))),
+            }
+            same("binary deserializer (str)", T::deserialize(crate::payloads::ProbeDeserializer::Str(s)).map_err(|e| e.to_string()))?;
+            for bytes in [s.as_bytes().to_vec(), vec![0u8; 33], vec![0xabu8; 32], vec![7u8; 49], vec![]] {
+                if let Ok(x) = T::deserialize(crate::payloads::ProbeDeserializer::Bytes(&bytes)) {
+                    return Err(pe("binary deserializer (bytes)", format!("{} bytes were accepted as {}", bytes.len(), x)));
+                }
+                let d: serde::de::value::BytesDeserializer<VE> = serde::de::value::BytesDeserializer::new(&bytes);
+                if let Ok(x) = T::deserialize(d) {
+                    return Err(pe("visit_bytes", format!("{} bytes were accepted as {}", bytes.len(), x)));
+                }
+            }
+            // Display under width / fill / alignment / precision: the canonical text, as a whole
+            for (spec, got) in [
+                ("{:>96}", format!("{:>96}", v)),
+                ("{:<60}", format!("{:<60}", v)),
+                ("{:^7}", format!("{:^7}", v)),
+                ("{:*^300}", format!("{:*^300}", v)),
+                ("{:5}", format!("{:5}", v)),
+                ("{:.3}", format!("{:.3}", v)),
+                ("{:>20.10}", format!("{:>20.10}", v)),
+            ] {
+                let padded = match spec {
+                    "{:>96}" => format!("{:>96}", want),
+                    "{:<60}" => format!("{:<60}", want),
+                    "{:^7}" => format!("{:^7}", want),
+                    "{:*^300}" => format!("{:*^300}", want),
+                    "{:5}" => format!("{:5}", want),
+                    "{:.3}" => format!("{:.3}", want),
+                    _ => format!("{:>20.10}", want),
+                };
+                // either the formatter flags are ignored (write_str) or applied to the whole string (pad)
+                if got != want && got != padded {
+                    return Err(pe("Display", format!("{spec} renders {:?}", crate::world::truncate(&got, 80))));
+                }
+            }
             Ok((j, want))
         }
         guard(|| match a {
@@ -1443,6 +1487,65 @@ impl<V: Full> Backend for B<V> {
             Artifact::PwLocal => p::<PasswordWrappedKey<V, Local>>(json),
             Artifact::PwSecret => p::<PasswordWrappedKey<V, Secret>>(json),
             Artifact::Seal => p::<SealedKey<V>>(json),
+        })
+    }
+
+    fn serde_probe_ser(&self, a: Artifact, s: &str) -> Out<(bool, Vec<u8>)> {
+        fn ps<T>(s: &str) -> Result<(bool, Vec<u8>), PasetoError>
+        where
+            T: FromStr<Err = PasetoError> + serde::Serialize,
+        {
+            let v = T::from_str(s)?;
+            match v.serialize(crate::payloads::ProbeSerializer) {
+                Ok(crate::payloads::Probed::Str(t)) => Ok((true, t.into_bytes())),
+                Ok(crate::payloads::Probed::Bytes(b)) => Ok((false, b)),
+                other => Err(PasetoError::PayloadError(format!("harness-probe: serialises as {other:?}").into())),
+            }
+        }
+        guard(|| match a {
+            Artifact::TokLocal => ps::<SealedToken<V, Local, Raw, Vec<u8>>>(s),
+            Artifact::TokPublic => ps::<SealedToken<V, Public, Raw, Vec<u8>>>(s),
+            Artifact::KeyLocal => ps::<KeyText<V, Local>>(s),
+            Artifact::KeyPublic => ps::<KeyText<V, Public>>(s),
+            Artifact::KeySecret => ps::<KeyText<V, Secret>>(s),
+            Artifact::KeyPkePublic => ps::<KeyText<V, PkePublic>>(s),
+            Artifact::KeyPkeSecret => ps::<KeyText<V, PkeSecret>>(s),
+            Artifact::Lid => ps::<KeyId<V, Local>>(s),
+            Artifact::Pid => ps::<KeyId<V, Public>>(s),
+            Artifact::Sid => ps::<KeyId<V, Secret>>(s),
+            Artifact::PieLocal => ps::<PieWrappedKey<V, Local>>(s),
+            Artifact::PieSecret => ps::<PieWrappedKey<V, Secret>>(s),
+            Artifact::PwLocal => ps::<PasswordWrappedKey<V, Local>>(s),
+            Artifact::PwSecret => ps::<PasswordWrappedKey<V, Secret>>(s),
+            Artifact::Seal => ps::<SealedKey<V>>(s),
+        })
+    }
+
+    fn serde_probe_de(&self, a: Artifact, is_str: bool, bytes: &[u8]) -> Out<String> {
+        fn pd<T>(is_str: bool, bytes: &[u8]) -> Result<String, PasetoError>
+        where
+            T: serde::de::DeserializeOwned + std::fmt::Display,
+        {
+            let d = if is_str { crate::payloads::ProbeDeserializer::Str(std::str::from_utf8(bytes).map_err(|_| PasetoError::InvalidToken)?) } else { crate::payloads::ProbeDeserializer::Bytes(bytes) };
+            let v = T::deserialize(d).map_err(|_| PasetoError::InvalidToken)?;
+            Ok(v.to_string())
+        }
+        guard(|| match a {
+            Artifact::TokLocal => pd::<SealedToken<V, Local, Raw, Vec<u8>>>(is_str, bytes),
+            Artifact::TokPublic => pd::<SealedToken<V, Public, Raw, Vec<u8>>>(is_str, bytes),
+            Artifact::KeyLocal => pd::<KeyText<V, Local>>(is_str, bytes),
+            Artifact::KeyPublic => pd::<KeyText<V, Public>>(is_str, bytes),
+            Artifact::KeySecret => pd::<KeyText<V, Secret>>(is_str, bytes),
+            Artifact::KeyPkePublic => pd::<KeyText<V, PkePublic>>(is_str, bytes),
+            Artifact::KeyPkeSecret => pd::<KeyText<V, PkeSecret>>(is_str, bytes),
+            Artifact::Lid => pd::<KeyId<V, Local>>(is_str, bytes),
+            Artifact::Pid => pd::<KeyId<V, Public>>(is_str, bytes),
+            Artifact::Sid => pd::<KeyId<V, Secret>>(is_str, bytes),
+            Artifact::PieLocal => pd::<PieWrappedKey<V, Local>>(is_str, bytes),
+            Artifact::PieSecret => pd::<PieWrappedKey<V, Secret>>(is_str, bytes),
+            Artifact::PwLocal => pd::<PasswordWrappedKey<V, Local>>(is_str, bytes),
+            Artifact::PwSecret => pd::<PasswordWrappedKey<V, Secret>>(is_str, bytes),
+            Artifact::Seal => pd::<SealedKey<V>>(is_str, bytes),
         })
     }
 }
@@ -1536,6 +1639,51 @@ pub fn json_footer_encode(v: &serde_json::Value) -> Out<Vec<u8>> {
         let mut out = Vec::new();
         paseto_core::encodings::Footer::encode(&Json(v.clone()), &mut out).map_err(PasetoError::PayloadError)?;
         Ok(out)
+    })
+}
+
+#[derive(Serialize, Deserialize)]
+struct Poison {
+    title: String,
+    filler: Vec<u32>,
+    cells: std::collections::BTreeMap<Vec<u8>, u8>,
+    tail: u8,
+}
+
+/// Encode a value that cannot be serialised as JSON (fails at the first map key, after `title`
+/// and `filler` were written). Ok(n) = the encode failed as it must, n bytes had reached the sink.
+pub fn failing_encode(footer: bool, filler: usize) -> Out<usize> {
+    guard(|| {
+        let p = Poison { title: "grid".into(), filler: (0..filler as u32).collect(), cells: [(vec![1u8, 2], 3u8)].into_iter().collect(), tail: 9 };
+        let mut out = Vec::new();
+        let r = if footer { paseto_core::encodings::Footer::encode(&Json(p), &mut out) } else { paseto_core::encodings::Payload::encode(Json(p), &mut out) };
+        match r {
+            Err(_) => Ok(out.len()),
+            Ok(()) => harness_err("a value serde_json cannot serialise was encoded"),
+        }
+    })
+}
+
+#[derive(Serialize, Deserialize)]
+struct AppClaims {
+    #[serde(flatten)]
+    registered: RegisteredClaims,
+    #[serde(flatten)]
+    custom: std::collections::BTreeMap<String, serde_json::Value>,
+}
+
+/// (wire bytes, registered claims read back, custom members read back, re-encoded bytes)
+pub fn flatten_roundtrip(claims: &RegSpec, extra: &serde_json::Map<String, serde_json::Value>) -> Out<(Vec<u8>, RegSpec, serde_json::Map<String, serde_json::Value>, Vec<u8>)> {
+    guard(|| {
+        let app = AppClaims { registered: claims.to_claims(), custom: extra.iter().map(|(k, v)| (k.clone(), v.clone())).collect() };
+        let mut wire = Vec::new();
+        paseto_core::encodings::Payload::encode(Json(app), &mut wire).map_err(PasetoError::PayloadError)?;
+        let back = <Json<AppClaims> as paseto_core::encodings::Payload>::decode(&wire).map_err(PasetoError::PayloadError)?.0;
+        let reg = RegSpec::from_claims(&back.registered);
+        let custom: serde_json::Map<String, serde_json::Value> = back.custom.iter().map(|(k, v)| (k.clone(), v.clone())).collect();
+        let mut again = Vec::new();
+        paseto_core::encodings::Payload::encode(Json(back), &mut again).map_err(PasetoError::PayloadError)?;
+        Ok((wire, reg, custom, again))
     })
 }
 
